@@ -205,6 +205,23 @@ def _run_tool(argv, cwd, root=None, plan=None, clock=None, env=None, san=False, 
 
 
 OUTPUT_CAP = 48 << 20
+LAST_HANG_STACK = ""
+
+
+def _hang_stack(pid):
+    """Innermost repository frames of a process that is about to be killed for not terminating
+    (diagnostic text for the violation message only; never part of a violation key or run hash)."""
+    try:
+        out = subprocess.run(["gdb", "-p", str(pid), "-batch", "-ex", "bt 40"], capture_output=True, text=True, timeout=15).stdout
+    except Exception:
+        return ""
+    import re
+    fns = []
+    for line in out.splitlines():
+        m = re.match(r"#\d+\s+(?:0x[0-9a-f]+ in )?([\w:~<>]+) \(.*\) at (\S+):(\d+)", line)
+        if m and "/src/" in m.group(2):
+            fns.append("%s (%s:%s)" % (m.group(1), os.path.basename(m.group(2)), m.group(3)))
+    return " <- ".join(fns[:6])
 
 
 def _drain(p, wall):
@@ -224,6 +241,8 @@ def _drain(p, wall):
         left = deadline - time.monotonic()
         if left <= 0 or max(sizes.values()) > OUTPUT_CAP:
             timed_out = True
+            global LAST_HANG_STACK
+            LAST_HANG_STACK = _hang_stack(p.pid)
             p.kill()
             break
         for key, _ in sel.select(min(left, 1.0)):
